@@ -89,19 +89,22 @@ pub trait ParseAttribute: Sized {
 fn parse_attr<T: ParseAttribute>(attr: &syn::Attribute, target: &mut T) -> Result<()> {
     let mut errors = Error::accumulator();
     match &attr.meta {
-        syn::Meta::List(data) => {
-            for item in NestedMeta::parse_meta_list(data.tokens.clone())? {
-                if let NestedMeta::Meta(ref mi) = item {
-                    errors.handle(target.parse_nested(mi));
-                } else {
-                    panic!("Wasn't able to parse: `{:?}`", item);
+        syn::Meta::List(data) => match NestedMeta::parse_meta_list(data.tokens.clone()) {
+            Ok(items) => {
+                for item in items {
+                    if let NestedMeta::Meta(ref mi) = item {
+                        errors.handle(target.parse_nested(mi));
+                    } else {
+                        errors.push(Error::unsupported_format("literal").with_span(&item));
+                    }
                 }
             }
-
-            errors.finish()
-        }
-        item => panic!("Wasn't able to parse: `{:?}`", item),
+            Err(err) => errors.push(err.into()),
+        },
+        item => errors.push(Error::custom("Expected `#[darling(...)]`").with_span(item)),
     }
+
+    errors.finish()
 }
 
 /// Middleware for extracting values from the body of the derive input. Implementers are
